@@ -76,7 +76,7 @@ def drive(ctx, binp, args, out):
     return json.loads(p.stdout.strip().splitlines()[-1])
 
 
-def run_lc(ctx, prop, emit_cfgs, mc_cfgs, driver_args, clean_cfgs=(), what="", scripted=0):
+def run_lc(ctx, prop, emit_cfgs, mc_cfgs, driver_args, clean_cfgs=(), what="", scripted=0, extra_runs=()):
     binp = c.build_harness("lc")
     stats = {"replayed": 0, "fast_path": 0, "slow_path": 0, "drift": 0, "panics": 0, "cases_traced": 0, "lines": 0}
     traces = []
@@ -119,6 +119,14 @@ def run_lc(ctx, prop, emit_cfgs, mc_cfgs, driver_args, clean_cfgs=(), what="", s
     stats["lines"] += st["lines"]
     stats["cases_traced"] = st["cases_traced"]
     traces.append(out)
+    # further driver runs with their own process-wide settings (e.g. a 1 ms grid): always full traces
+    for k, xargs in enumerate(extra_runs):
+        out = ctx.path("trace-extra%d.ndjson" % k)
+        st = drive(ctx, binp, list(xargs) + ["--first-case", str(stats["cases_traced"]), "--seed", str(ctx.seed)], out)
+        stats["panics"] += st["panics"]
+        stats["lines"] += st["lines"]
+        stats["cases_traced"] = st["cases_traced"]
+        traces.append(out)
     # (e) one TLC trace validation over everything that was recorded
     trace = ctx.path("trace.ndjson")
     with open(trace, "w") as f:
